@@ -55,27 +55,21 @@ static int32_t g_last[3][3];          // [consumer][producer]: last tag seen
 static int32_t g_prev[3];             // [consumer]: previously popped tag (0: none)
 
 #if VF_ELEM
-#define VF_CAPACITY (dispenso::MpmcRingBuffer<Tracked, VF_CAP, VF_POW2>::capacity())
 static int8_t g_alive[kTags + 1];     // value-carrying objects alive per tag
-static int32_t g_inring;              // payload objects currently alive inside the ring's slots
-struct Elem;
-static inline bool addrInRing(const void* p);
+struct InPlace {};
 struct Elem {
   Tracked t;  // global construct/destroy counters, double-destroy check
   bool proto = false;  // source object of a copying push: not an element itself
   void makeProto() { proto = true; if (t.v >= 1 && t.v <= kTags) g_alive[t.v]--; }
-  bool inRing() const { return addrInRing(this); }
   void born() {
     if (t.v >= 1 && t.v <= kTags) {
       g_alive[t.v]++;
       vf_check(g_alive[t.v] == 1, "two live objects carry the same element");
     }
-    if (inRing()) {
-      ++g_inring;
-      vf_check(g_inring <= (int32_t)VF_CAPACITY, "more than capacity() elements alive inside the buffer");
-    }
   }
+  // scheduling points: where a payload object is written into / read out of a slot
   explicit Elem(int32_t x) noexcept : t(x) { born(); }
+  Elem(int32_t x, InPlace) noexcept : t((vf_sched_point(), x)) { born(); }  // try_emplace
   Elem(const Elem& o) noexcept : t((vf_sched_point(), o.t)) { born(); }
   Elem(Elem&& o) noexcept : t((vf_sched_point(), o.t.v)) {
     // the source gives up the element
@@ -95,9 +89,7 @@ struct Elem {
       g_alive[t.v]--;
       vf_check(g_alive[t.v] == 0, "an element is destroyed twice");
     }
-    if (inRing()) --g_inring;
   }
-  int32_t tag() const { return t.v; }
 };
 static inline int32_t tagOf(const Elem& e) { return e.t.v; }
 #else
@@ -114,12 +106,6 @@ union Holder {
 };
 static Holder g_holder;
 static inline Ring& ring() { return g_holder.r; }
-#if VF_ELEM
-static inline bool addrInRing(const void* q) {
-  uintptr_t p = reinterpret_cast<uintptr_t>(q), s = reinterpret_cast<uintptr_t>(&g_holder);
-  return p >= s && p < s + sizeof(g_holder);
-}
-#endif
 
 static inline int producerOf(int32_t tag) { return tag <= 3 ? 0 : tag <= 6 ? 1 : 2; }
 
@@ -152,7 +138,11 @@ static inline void push_end(int32_t tag, bool ok) {
 
 static inline bool push_kind(int32_t tag, uint32_t kind) {
   if (kind == 0) return ring().try_push(Elem(tag));
+#if VF_ELEM
+  if (kind == 1) return ring().try_emplace(tag, InPlace{});
+#else
   if (kind == 1) return ring().try_emplace(tag);
+#endif
 #if VF_ELEM
   Elem src(tag);
   src.makeProto();
@@ -308,7 +298,7 @@ static void phase_post(uint64_t) {
   vf_check(r->size() == expect, "quiescent size() differs from pushed-but-not-popped count");
   vf_check(r->empty() == (expect == 0) && r->full() == (expect >= cap), "quiescent empty()/full() agree with the ledger");
 #if VF_ELEM
-  vf_check(g_inring == (int32_t)expect && g_cnt.live == (int32_t)expect, "live payload objects == elements in the buffer");
+  vf_check(g_cnt.live == (int32_t)expect, "live payload objects == elements in the buffer");
 #endif
   {
     push_begin(kProbe);
@@ -333,7 +323,7 @@ static void phase_post(uint64_t) {
   }
 #if VF_ELEM
   r->~Ring();
-  vf_check(g_cnt.live == 0 && g_cnt.ctor == g_cnt.dtor && g_inring == 0,
+  vf_check(g_cnt.live == 0 && g_cnt.ctor == g_cnt.dtor,
            "every payload object is destroyed exactly once (destructor destroys what is left)");
 #pragma unroll
   for (int t = 1; t <= kTags; ++t) {
